@@ -74,12 +74,31 @@ TopClosable(d, open, i) == IF i = 0 THEN 0
                            ELSE IF CanClose(d, open[i].d) THEN 1 + TopClosable(d, open, i - 1) ELSE 0
 Reverse(s) == [i \in 1..Len(s) |-> s[Len(s) + 1 - i]]
 
+\* ---- the tracker's validation verdict (returned as an error next to the closed list; spec growth, X03) ----
+\* cl: closed list (last opened first), o1: the stack after removing it, h1: pending breakaway index after it.
+\*  - program resumption without a pending breakaway: "invalid" (the descriptor is pushed all the same);
+\*  - program end that closed nothing: "missingout";
+\*  - the other "end" types the library validates: satisfied when something was closed and nothing is left open;
+\*    otherwise the descriptor it is matched against - the deepest closed one if that is the matching start type
+\*    (end type - 1), else the top of the remaining stack ("missingout" if there is none) - must have the same event id.
+ValidatedEnds == {33, 49, 53, 51, 55, 65, 81}   \* 0x21 0x31 0x35 0x33 0x37 0x41 0x51
+Warn(d, cl, o1, h1) ==
+  IF d.type = Resumption THEN (IF h1 = 0 THEN "invalid" ELSE "none")
+  ELSE IF d.type = 17 THEN (IF Len(cl) = 0 THEN "missingout" ELSE "none")
+  ELSE IF d.type \in ValidatedEnds THEN
+       IF Len(cl) # 0 /\ Len(o1) = 0 THEN "none"
+       ELSE IF Len(cl) = 0 \/ cl[Len(cl)].d.type # d.type - 1 THEN
+            (IF Len(o1) = 0 THEN "missingout"
+             ELSE IF o1[Len(o1)].d.eid # d.eid THEN "missingout" ELSE "none")
+       ELSE IF cl[Len(cl)].d.eid # d.eid THEN "missingout" ELSE "none"
+  ELSE "none"
+
 \* ---- ProcessDescriptor ----
 \* result: [s |-> state', res |-> "nopts" | "dup" | "vsserr" | "ok", closed |-> Seq([d, inst]), discarded |-> Seq]
 ProcessF(s, d) ==
-  IF ~d.haspts THEN [s |-> s, res |-> "nopts", closed |-> <<>>, discarded |-> <<>>]
+  IF ~d.haspts THEN [s |-> s, res |-> "nopts", closed |-> <<>>, discarded |-> <<>>, warn |-> "none"]
   ELSE LET scan == ScanRing(d, s.ring, 1) IN
-  IF scan.out \in {"dup", "vsserr"} THEN [s |-> [s EXCEPT !.ring = scan.ring], res |-> scan.out, closed |-> <<>>, discarded |-> <<>>]
+  IF scan.out \in {"dup", "vsserr"} THEN [s |-> [s EXCEPT !.ring = scan.ring], res |-> scan.out, closed |-> <<>>, discarded |-> <<>>, warn |-> "none"]
   ELSE
     LET rec == Record(d, scan, s.head)
         k   == TopClosable(d, s.open, Len(s.open))
@@ -92,14 +111,14 @@ ProcessF(s, d) ==
     IN
     IF d.type = Breakaway THEN
          [s |-> [base EXCEPT !.open = Append(o1, me), !.hidden = n1 + 1, !.cnt = s.cnt + 1],
-          res |-> "ok", closed |-> cl, discarded |-> <<>>]
+          res |-> "ok", closed |-> cl, discarded |-> <<>>, warn |-> "none"]
     ELSE IF d.type = Resumption /\ h1 # 0 THEN
          [s |-> [base EXCEPT !.open = Append(SubSeq(o1, 1, h1 - 1), me), !.hidden = 0, !.cnt = s.cnt + 1],
-          res |-> "ok", closed |-> cl, discarded |-> SubSeq(o1, h1, n1)]
+          res |-> "ok", closed |-> cl, discarded |-> SubSeq(o1, h1, n1), warn |-> "none"]
     ELSE IF d.type = Resumption \/ d.type \in PushTypes THEN
          [s |-> [base EXCEPT !.open = Append(o1, me), !.hidden = h1, !.cnt = s.cnt + 1],
-          res |-> "ok", closed |-> cl, discarded |-> <<>>]
-    ELSE [s |-> [base EXCEPT !.open = o1, !.hidden = h1], res |-> "ok", closed |-> cl, discarded |-> <<>>]
+          res |-> "ok", closed |-> cl, discarded |-> <<>>, warn |-> Warn(d, cl, o1, h1)]
+    ELSE [s |-> [base EXCEPT !.open = o1, !.hidden = h1], res |-> "ok", closed |-> cl, discarded |-> <<>>, warn |-> Warn(d, cl, o1, h1)]
 
 \* ---- Close(d): the topmost element Equal to d ----
 EqualIdx(d, open) == { i \in 1..Len(open) : Equal(d, open[i].d) }
